@@ -3270,3 +3270,18 @@ impl<T: Send + Sync> SendSyncNative for T {}
 pub trait SendSyncNative {}
 #[cfg(target_arch = "wasm32")]
 impl<T> SendSyncNative for T {}
+
+// verif hook (C20, add-only, no behaviour change): the compile-time state that `inline_modifier`
+// (fill), `try_`, `quote` and macro expansion save and restore around their operands
+#[cfg(feature = "verif_hooks")]
+impl Compiler {
+    /// (pre_eval_mode, in_fill, in_try, comptime_depth)
+    pub fn verif_session_state(&self) -> (PreEvalMode, bool, bool, usize) {
+        (
+            self.pre_eval_mode,
+            self.in_fill,
+            self.in_try,
+            self.comptime_depth,
+        )
+    }
+}
